@@ -153,6 +153,8 @@ type eel struct {
 	inner   *eel
 	prefix  bool // render with xenc:/ds: prefixes or in default namespaces
 	alt     bool // with prefix: use the prefixes enc: / dsig: instead (a peer is free to choose its prefixes)
+	lead    int  // an X509Data WITHOUT certificate before the one that holds it: 1 subject name, 2 issuer serial, 3 empty
+	form    int  // lexical form of an unusable certificate text (certBadPem / certBadDer): see xml()
 	chain   int  // further certificates after the first one (the recipient's issuer chain): 1 in the same X509Data, 2 in a second X509Data; only the first certificate is the recipient hint
 }
 
@@ -216,13 +218,42 @@ func (e *eel) xml(tag string) *etree.Element {
 			ki.AddChild(e.inner.xml("EncryptedKey"))
 		}
 		if e.cert != certAbsent {
+			switch e.lead {
+			case 1:
+				ki.CreateElement(d + "X509Data").CreateElement(d + "X509SubjectName").SetText("CN=recipient")
+			case 2:
+				is := ki.CreateElement(d + "X509Data").CreateElement(d + "X509IssuerSerial")
+				is.CreateElement(d + "X509IssuerName").SetText("CN=ca")
+				is.CreateElement(d + "X509SerialNumber").SetText("4242")
+			case 3:
+				ki.CreateElement(d + "X509Data")
+			}
 			xd := ki.CreateElement(d + "X509Data")
 			c := xd.CreateElement(d + "X509Certificate")
 			switch e.cert {
 			case certBadPem:
-				c.SetText("!!!not base64!!!")
+				switch e.form % 3 {
+				case 0:
+					c.SetText("!!!not base64!!!")
+				case 1:
+					c.SetText(fix.CertB64("rsa_a")[:41] + "*" + fix.CertB64("rsa_a")[42:])
+				case 2:
+					c.SetText("-----BEGIN CERTIFICATE-----")
+				}
 			case certBadDer:
-				c.SetText(base64.StdEncoding.EncodeToString([]byte("this is not a DER certificate at all")))
+				switch e.form % 6 {
+				case 0:
+					c.SetText(base64.StdEncoding.EncodeToString([]byte("this is not a DER certificate at all")))
+				case 1: // present but empty
+				case 2:
+					c.SetText("\n   \t\n")
+				case 3:
+					c.CreateComment(" " + fix.CertB64("rsa_a") + " ")
+				case 4: // the base64 inside a child element: the element's own text is empty
+					c.CreateElement(d + "Value").SetText(fix.CertB64("rsa_a"))
+				case 5:
+					c.SetText(fix.CertB64("rsa_a")[:400])
+				}
 			case certNonRsa:
 				c.SetText(fix.CertB64("ec_256"))
 			case certRsa:
@@ -583,13 +614,25 @@ func runC11(c *Ctx) {
 					if !c.Thorough() && di > 1 && cert.k != certRsa && cert.k != certAbsent {
 						continue
 					}
-					for chain := 0; chain < 3; chain++ {
-						if chain > 0 && (di > 0 || cert.k == certAbsent) {
+					for shape := 0; shape < 12; shape++ {
+						// 0: plain; 1-2: issuer chain after the certificate; 3-5: a certificate-less X509Data first; 6-11: lexical forms of an unusable text
+						if shape > 0 && (di > 0 || cert.k == certAbsent) {
 							continue
 						}
-						ek := &eel{method: strp(ta.uri), dg: strp(da.uri), cert: cert.k, certID: cert.id, cv: cvBytes, cvBytes: w, prefix: true, chain: chain}
+						if shape >= 6 && cert.k != certBadPem && cert.k != certBadDer {
+							continue
+						}
+						ek := &eel{method: strp(ta.uri), dg: strp(da.uri), cert: cert.k, certID: cert.id, cv: cvBytes, cvBytes: w, prefix: true}
+						switch {
+						case shape <= 2:
+							ek.chain = shape
+						case shape <= 5:
+							ek.lead = shape - 2
+						default:
+							ek.form = shape - 5
+						}
 						add("rsa_wrapped", key, &eel{method: strp(a0.uri), cv: cvBytes, cvBytes: dataCT, inner: ek, prefix: true},
-							map[string]string{"transport": ta.name, "digest": da.uri, "cert": fmt.Sprint(cert.k, cert.id), "key": keyCoq(key), "chain": fmt.Sprint(chain)})
+							map[string]string{"transport": ta.name, "digest": da.uri, "cert": fmt.Sprint(cert.k, cert.id), "key": keyCoq(key), "keyinfo_shape": fmt.Sprint(shape)})
 					}
 				}
 			}
